@@ -13,7 +13,10 @@ META = {
                    "positionally into SequenceData, whose 11 fields each receive the matching quantity. CLAMP: "
                    "PCHIP output is possibly negative; only a non-negativity clamp (where(x>0,x,0), clamp(min=0), "
                    "relu, maximum(x,0)) sanitises, and only the region it is stored to; no tainted region of the "
-                   "amplitude array may remain at return; detuning/phase must not be clamped.",
+                   "amplitude array may remain at return; detuning/phase must not be clamped. "
+                   "PCHIP-end: _limit_endpoint zeroes the three-point end slope whenever its sign differs from the boundary "
+                   "secant's (a zero secant included: a flat first/last interval stays flat), caps it at 3x that secant, "
+                   "and both ends pass (boundary secant, next secant) in that order.",
     "not_decided": "the interpolated values themselves (C20 is not applicable)",
     "trusted_base": ["CPython ast", "sa.interp with allocation-site identity for torch.zeros", "sa.algebra"],
     "assumptions": ["dict iteration order is insertion order"],
